@@ -292,3 +292,27 @@ async fn kf11_ack_beyond_sent_near_wrap() {
     let res = t.poll_once().await;
     eprintln!("TRIAGE kf11 poll after hostile ack = {res:?}");
 }
+
+// KF13: zero window + lost window update => sender sleeps with accepted bytes and no timer armed.
+#[tokio::test]
+async fn kf13_zero_window_no_persist_timer() {
+    setup_test_logging();
+    let mut t = make_test_vsock(Default::default(), false);
+    t.send_msg(UtpHeader { htype: ST_STATE, seq_nr: 0.into(), ack_nr: t.vsock.seq_nr, wnd_size: 5, ..Default::default() }, "");
+    t.stream.as_mut().unwrap().write_all(b"hello world").await.unwrap();
+    t.poll_once_assert_pending().await;
+    let _ = t.take_sent();
+    // peer acks everything in flight and closes its window
+    t.send_msg(UtpHeader { htype: ST_STATE, seq_nr: 0.into(), ack_nr: 101.into(), wnd_size: 0, ..Default::default() }, "");
+    t.poll_once_assert_pending().await;
+    t.assert_sent_empty();
+    let ring_len = { let c = t.vsock.user_tx.consumer.lock(); let s = ringbuf::traits::Consumer::as_slices(&*c); s.0.len() + s.1.len() };
+    let next = t.vsock.next_timer_to_poll();
+    eprintln!("TRIAGE kf13 bytes accepted but unsent in ring={ring_len} segments={} next_timer_to_poll={next:?}", t.vsock.user_tx_segments.total_len_packets());
+    // the (single) window update is lost; advance time by an hour: nothing is ever sent, nothing fails.
+    for _ in 0..60 {
+        t.env.increment_now(std::time::Duration::from_secs(60));
+        t.poll_once_assert_pending().await;
+    }
+    eprintln!("TRIAGE kf13 after 1h of silence sent={:?}", t.take_sent());
+}
